@@ -99,12 +99,18 @@ pub fn permission_docs(thorough: bool) -> Vec<Vec<Grant>> {
   }
   // which grant: subject and validity window
   let allow_all = rule(true, vec![Dom::Min(0)], 2, crit("*", &[]));
-  let firsts = vec![
+  let mut firsts = vec![
     Grant { me: false, validity: Validity::Current, rules: vec![allow_all.clone()], default_allow: true },
     Grant { me: true, validity: Validity::Past, rules: vec![allow_all.clone()], default_allow: true },
     Grant { me: true, validity: Validity::Future, rules: vec![allow_all.clone()], default_allow: true },
     Grant { me: true, validity: Validity::Current, rules: vec![rule(false, vec![Dom::Id(7)], 0, crit("zzz", &[]))], default_allow: false },
   ];
+  // bounds a few hours from now, written with UTC offsets (get_grant reads the wall clock)
+  for off in [5i8, -5, 0] {
+    firsts.push(Grant { me: true, validity: Validity::PastOff(off), rules: vec![allow_all.clone()], default_allow: true });
+    firsts.push(Grant { me: true, validity: Validity::FutureOff(off), rules: vec![allow_all.clone()], default_allow: true });
+    firsts.push(Grant { me: true, validity: Validity::CurrentOff(off), rules: vec![allow_all.clone()], default_allow: true });
+  }
   for f in &firsts {
     for r in &small {
       for d in [true, false] {
@@ -317,7 +323,7 @@ pub fn run(tier: &str) -> i32 {
     "Parsed documents are installed the way validate_local_permissions stores them (after signature verification, which part (b) covers); the full path from signed files is exercised by the C16/C17/C19 drivers".into(),
     "For entity kind topic with exactly one of read/write access control enabled the statement does not say whether the access is unprotected: either answer is accepted unless a permission settles it".into(),
     "A query without partitions against rules with partition expressions is not asserted (whether the default partition must match is left open); the public entry points pass no partitions at all".into(),
-    "Validity windows are decades away from the real date (get_grant uses the wall clock)".into(),
+    "Validity windows are either decades away from the real date or two hours away from the wall clock and written with UTC offsets of +5 h, -5 h and Z (get_grant uses the wall clock; a run that takes less than two hours cannot straddle a bound)".into(),
   ];
   rep.finish()
 }
